@@ -9,27 +9,27 @@ def check(pid, technique, category, text, note, design):
 check("C03",
   "explicit-state exploration of the implementation: every block-tree shape x every delivery order, reference-model agreement after every step",
   "model_checking",
-  "Every recursive tree shape of n blocks (quick n=4, thorough n=5) above a stem, every permutation of their delivery through the real consumer path (mempool queue + add_blocks_from_mempool), with conflicting sibling payments, one-invalid-leaf and re-delivery variants and both initial_loading settings; after every delivery the tip/index/flags/utxoset are compared with a replay of genesis..tip by a reference ledger and with a fresh node fed that chain directly.",
+  "Every recursive tree shape of n blocks (quick n=4 plus the five-block trees in which a two-block branch is overtaken by a three-block one, thorough n=5) above a stem, tree blocks spending the output their parent created, every permutation of their delivery through the real consumer path (mempool queue + add_blocks_from_mempool), with conflicting sibling payments, one-invalid-leaf and re-delivery variants and both initial_loading settings; after every delivery the tip/index/flags/utxoset are compared with a replay of genesis..tip by a reference ledger and with a fresh node fed that chain directly.",
   "Bounded by tree size; genesis periods 10 and 3 (window wrap and purge inside the bound); trusted: the harness's RefLedger (set insert/remove) and the block factory built on the real producer.",
   "DESIGN.md §3 C03")
 
 check("C04",
   "explicit-state exploration of the implementation: every fork shape x offending-block position x invalidity kind, full-state before/after comparison and hooked step counter",
   "model_checking",
-  "For every fork shape (current segment a<=2/3, candidate a+1 or a+2 blocks, light-first-block variants that delay the reorg trigger), every position of the offending block and nine kinds of invalidity (signed/unsigned header field, creator signature, transaction signature, spent input, transaction list vs merkle root, timestamp/burn fee, golden-ticket density, unknown parent), own and foreign creator, genesis period 10 and 3: the complete observable state before add_block equals the state after a rejection, the wind/unwind loop stays within 2(a+b)+2 dispatches (cfg-guarded counter turns a livelock into a verdict), the C03 consistency oracle holds afterwards and an honest successor of the tip is still accepted.",
+  "For every fork shape (current segment a<=2/3, candidate a+1 or a+2 blocks, light-first-block variants that delay the reorg trigger), every position of the offending block and ten kinds of invalidity (signed/unsigned header field, creator signature, transaction signature, spent input, transaction list vs merkle root, timestamp/burn fee, golden-ticket density, unknown parent, id not continuing the parent's), node under test = outsider, block creator or the payer whose outputs the candidate blocks spend, genesis period 10 and 3: the complete observable state (chain, index, flags, spendable set, files, pool, and every wallet slip with its recorded origin) before add_block equals the state after a rejection, the wind/unwind loop stays within 2(a+b)+2 dispatches (cfg-guarded counter turns a livelock into a verdict), the C03 consistency oracle holds afterwards and an honest successor of the tip is still accepted.",
   "Descendants of an offending block are honest blocks re-parented and re-signed with the creator key the harness owns; pool contents are outside the property's no-trace list and only reported.",
   "DESIGN.md §3 C04")
 
 check("C01",
   "explicit-state exploration of the implementation: chain positions x adversarial edit catalogue x placements x four gates, judged by a reference ledger",
   "model_checking",
-  "At four chain positions reached through the real producer (fresh, after a reorganisation, window wrapped with and without a fee level) every edit of a ~45-entry catalogue (forged/zero/wrong-key signature, foreign extra input, non-existent/inflated/spent/replayed/expired/duplicated input, same input in two transactions, Bound retag, outputs exceeding inputs incl. 64-bit wrap, theft and mint under every privileged type, look-up dependent edits under every user-signable type) is offered to the pool, to VerificationThread::verify_tx, and inside attacker-produced blocks as tip extension (two placements) and as completion of a winning side chain; accepted implies authorised per the reference ledger, and every unedited twin / spent-only-on-the-other-fork control must be accepted.",
+  "At four chain positions reached through the real producer (fresh, after a reorganisation, window wrapped with and without a fee level) every edit of a ~75-entry catalogue (forged/zero/wrong-key signature, a foreign / non-existent / inflated input at every position of two- and three-input lists mixed with the signer's own valued and zero-amount inputs, non-existent/inflated/spent/replayed/expired/duplicated input, same input in two transactions of a hand-assembled block, Bound retag, outputs exceeding inputs incl. 64-bit wrap, theft and mint under every privileged type, look-up dependent edits under every user-signable type) is offered to the pool, to VerificationThread::verify_tx, and inside attacker-produced blocks as tip extension (two placements) and as completion of a winning side chain; accepted implies authorised per the reference ledger, and every unedited twin / spent-only-on-the-other-fork control must be accepted.",
   "Reference ledger = set of output coordinates replayed from the harness's block bytes; attacker owns its key and the creator key of its blocks; window-edge inputs (created exactly g blocks earlier) are don't-cares.",
   "DESIGN.md §3 C01")
 check("C05",
   "explicit-state exploration of the implementation: two-branch forks x every golden-ticket placement x burn-fee profile x every interleaving, three monitors per delivery",
   "model_checking",
-  "Stems of 1/3/5 blocks with every golden-ticket placement the node accepts, two branches of length <=2 (quick) / <=3 (thorough) with every golden-ticket subset, normal or light (slow) spacing per branch, every interleaved delivery plus child-before-parent swaps through the consumer path; after every delivery: M1 (a moved tip is strictly longer, at least as heavy over the diverging segment, valid, dense in every six-block window), M2 (height never decreases, an orphan changes neither tip nor index), M3 (a block completing a longer, heavy-enough, valid, dense chain becomes the tip) and the C03 consistency oracle.",
+  "Stems of 1/3/5 blocks with every golden-ticket placement the node accepts, two branches of length <=2 (quick) / <=3 (thorough) with every golden-ticket subset, normal or light (slow) spacing per branch, plus a two-block segment against a three-block candidate with every per-block spacing pattern over {2,5} heartbeats, every interleaved delivery plus child-before-parent swaps through the consumer path; after every delivery: M1 (a moved tip is strictly longer, at least as heavy over the diverging segment, valid, dense in every six-block window), M2 (height never decreases, an orphan changes neither tip nor index), M3 (a block completing a longer, heavy-enough, valid, dense chain becomes the tip) and the C03 consistency oracle.",
   "Start-up phase of the density rule: M1 lenient, M3 strict (code's), chains between the readings are don't-cares; blocks are spaced >= 2 heartbeats so no routing work is needed; builders bypass the density rule to be able to produce descendants of violators.",
   "DESIGN.md §3 C05")
 
@@ -42,14 +42,14 @@ check("C02",
 check("C07",
   "explicit-state exploration of the implementation: deviation-bounded and exhaustive-prefix round scripts on the real producer, differential acceptance on an independent node",
   "model_checking",
-  "Rounds of {submit transaction variant (fee 0/small/large, 0-2 hop routing paths ending or not at the producer, two payers), golden ticket available or not, elapsed time 0.5/1/2/3 heartbeats, Mempool::bundle_block} from genesis through two window wraps (2g+4 rounds; g=3, g=3 with staking, g=4, treasury-rich variant): default script with <=1 (quick) / <=2 (thorough) deviations from a 48-symbol round alphabet and the exhaustive product of the first two rounds from a fresh and a just-wrapped chain. Every produced block must be accepted by the producer and, as bytes, by an independent node; both chain states must then agree; no block produced => pool unchanged.",
+  "Rounds of {submit transaction variant (fee 0/small/large, 0-2 hop routing paths ending or not at the producer, two payers), golden ticket available or not, elapsed time 0.5/1/2/3 heartbeats, Mempool::bundle_block} from genesis through two window wraps (2g+4 rounds; g=3, g=3 with staking, g=4, treasury-rich variant): default script with <=1 (quick) / <=2 (thorough) deviations from a 48-symbol round alphabet the exhaustive product of the first two rounds from a fresh and a just-wrapped chain, and rounds in which a block of another producer double-spends a pooled routed transaction before bundling (six fee levels, four elapsed times). Every produced block must be accepted by the producer and, as bytes, by an independent node; both chain states must then agree; no block produced => pool unchanged.",
   "Producer K0 and twin K9 share only bytes. Heartbeat 5000 ms; the hash-dependent minimum spacing in can_bundle_block makes some fast rounds produce no block (counted).",
   "DESIGN.md §3 C07")
 
 check("C06",
   "bounded-exhaustive enumeration of single edits of real blocks against the implementation, accepted variants grouped by hash",
   "exploration",
-  "For three base blocks built by the real producer (golden ticket + routed fee-paying + plain + payload transactions; a post-wrap block with rebroadcast and fee transactions; a fee-less block with a routed transaction) every single edit that keeps the bytes decodable: remove / duplicate / replace / swap every pair / append transaction; one change in every field class of every transaction (signature, timestamp, type, replacement count, input amount/key/coordinates, output amount/key/slip type, payload, routing path strip/truncate/hop-to/hop-sig/append-hop); one bit in each of the 32 header fields; zero and foreign merkle root; creator swapped or block re-signed by another key; transaction count field. Each variant goes bytes -> decode -> VerificationThread::verify_block (original's advertised id/hash) and Blockchain::add_block on a fresh node at the parent. All accepted variants with equal hash must carry byte-identical ordered transaction lists and a creator signature that verifies.",
+  "For three base blocks built by the real producer (golden ticket + routed fee-paying + plain + payload transactions; a post-wrap block with rebroadcast and fee transactions; a fee-less block with a routed transaction) every single edit that keeps the bytes decodable: remove / duplicate / replace / swap every pair / append transaction; one change in every field class of every transaction (signature, timestamp, type, replacement count, input amount/key/coordinates, output amount/key/slip type, payload, routing path strip/truncate/hop-to/hop-sig/append-hop); one bit in each of the 32 header fields; zero and foreign merkle root; creator swapped or block re-signed by another key; transaction count field. Whole-list edits (remove all, keep first / last only, reverse) and the genesis block as a fourth base. Each variant goes bytes -> decode -> VerificationThread::verify_block (original's advertised id/hash), Blockchain::add_block on a fresh node at the parent, and Blockchain::add_block as the first block of an empty node. All accepted variants with equal hash must carry byte-identical ordered transaction lists and a creator signature that verifies.",
   "Single edits only (no edit pairs); three base blocks. Variants with a different hash are different blocks and not judged here.",
   "DESIGN.md §3 C06")
 
@@ -76,7 +76,7 @@ check("C18",
 check("C13",
   "explicit-state exploration of the implementation: deviation-bounded producer histories across the window edge with a per-block rebroadcast monitor",
   "model_checking",
-  "Histories of 2g+5 blocks (g = 3, 4; 5 in thorough) at fee levels 0 and 6000 built with the real producer from a 9-symbol action alphabet (payment, payment with two outputs, dust output, spend of the oldest still-spendable output, NFT mint, empty), default script with 1 deviation everywhere and 2 deviations at g=3 (all g thorough), golden ticket every other block. Monitor on every accepted block at height h > g+1: its rebroadcast transactions are in bijection with the outputs of block h-g-1 that are unspent per the reference ledger and can pay the fee (same owner; amount = value x payout multiplier - size x parent's fee-per-byte, from the parent's header), NFT triples move as triples, too-small outputs are collected (total_fees_atr = rebroadcast fees + dust), nothing else is rebroadcast, and every expired original is refused by the pool afterwards.",
+  "Histories of 2g+5 blocks (g = 3, 4; 5 in thorough) at fee levels 0 and 6000 built with the real producer from a 9-symbol action alphabet (payment, payment with two outputs, dust output, spend of the oldest still-spendable output, NFT mint, empty), default script with 1 deviation everywhere and 2 deviations at g=3 (all g thorough), golden ticket every other block, and histories in which a competitor block arrives first at some height and loses to a two-block branch whose first block carries a payment (two blocks stored at the expiring height). Monitor on every accepted block at height h > g+1: its rebroadcast transactions are in bijection with the outputs of block h-g-1 that are unspent per the reference ledger and can pay the fee (same owner; amount = value x payout multiplier - size x parent's fee-per-byte, from the parent's header), NFT triples move as triples, too-small outputs are collected (total_fees_atr = rebroadcast fees + dust), nothing else is rebroadcast, and every expired original is refused by the pool afterwards.",
   "Payout multiplier > 1 is unobservable on the pinned tree (blocks with a treasury payout never validate: C07 known finding). No forks inside these histories (C02/C03 trees cross the window edge with forks).",
   "DESIGN.md §3 C13")
 
@@ -90,7 +90,7 @@ check("C14",
 check("C19",
   "explicit-state breadth-first search over wallet-relevant operation sequences on the real Wallet and chain, state = history, digest deduplication",
   "model_checking",
-  "At genesis period 3 (so that outputs expire inside the bound) all sequences to depth 6 (quick) / 8 (thorough) over {incoming payment with one / two outputs, wallet-built outgoing transaction of a small amount with and without fee, of exactly the balance, of balance+1, block, side chain that unwinds the last one / two blocks, longer chain that winds them back}. In every state: available balance = sum of the amounts of the slips listed as unspent; on histories without reorganisation the unspent list equals the reference ledger's spendable in-window outputs of the key minus the inputs the wallet committed to pending transactions (outputs exactly at the window edge are don't-cares); every transaction the wallet builds has pairwise distinct inputs, outputs + fee <= inputs and passes Transaction::validate on the ledger it was built on; a request above the balance is refused.",
+  "At genesis period 3 (outputs expire inside the bound) and 6 (what a reorganisation returns can be spent again; built transactions registered as pending like the node's send path) all sequences to depth 6 (quick) / 8 (thorough, frontier-capped) over {incoming payment with one / two outputs, an own-key payment built outside the wallet and relayed through the node, wallet-built outgoing transaction of a small amount with and without fee, of exactly the balance, of balance+1, block, side chain that unwinds the last one / two blocks, longer chain that winds them back}. In every state: available balance = sum of the amounts of the slips listed as unspent; on histories without reorganisation the unspent list equals the reference ledger's spendable in-window outputs of the key minus the inputs the wallet committed to pending transactions (outputs exactly at the window edge are don't-cares); every transaction the wallet builds has pairwise distinct inputs, outputs + fee <= inputs and passes Transaction::validate on the ledger it was built on; a request above the balance is refused.",
   "The frontier is capped at 1500 histories per level beyond depth 4 (reported as exhaustive=false with the level). Staking slips are out of scope (staking off).",
   "DESIGN.md §3 C19")
 
@@ -111,7 +111,7 @@ check("C16",
 check("C17",
   "explicit-state breadth-first search over Dolev-Yao attacker actions on the real handshake handlers of two real nodes, symbolic renaming of challenges",
   "model_checking",
-  "Two real FullNodes (S accepts two connections, C dials S) and an attacker who owns one connection to S and controls the wire between C and S: deliver or drop queued messages, replay any observed message to S (on either connection) or to C, send a challenge with any observed or a fresh value, send a response signed with its own key over any observed challenge with a compatible or incompatible version. All action sequences to depth 5 (quick) / 6 (thorough); challenges are random per run and named by order of observation in actions and digests. After every step, for every acceptance (status change or PeerHandshakeComplete event): the key is not the node's own, the response's signature verifies under that key over the challenge outstanding on that very connection, that (connection, challenge) was not accepted before, the version is compatible, a challenge was outstanding at all; no connected peer and no address-map entry changes because of a message on another connection unless that message is itself a valid authentication by the same key; no handler aborts.",
+  "Two real FullNodes (S accepts two connections, C dials S and accepts one) and an attacker who owns one connection to S and one to C and controls the wire between C and S: deliver or drop queued messages, replay any observed message to S or C (on either of their connections), send a challenge with any observed or a fresh value, send a response signed with its own key over any observed challenge with a compatible or incompatible version. All action sequences to depth 4 (quick) / 5 (thorough), under 2 / 4 seeds of the peer maps' iteration order (hook H4); challenges are random per run and named by order of observation in actions and digests, which also name the challenge each observed response signs. After every step, for every acceptance (status change or PeerHandshakeComplete event): the key is not the node's own, the response's signature verifies under that key over the challenge outstanding on that very connection, that (connection, challenge) was not accepted before, the version is compatible, a challenge was outstanding at all; no connected peer and no address-map entry changes because of a message on another connection unless that message is itself a valid authentication by the same key; no handler aborts.",
   "Signatures are unforgeable; one attacker key. Pure relay of a genuine answer to a genuine challenge (no channel binding in the protocol) is not flagged.",
   "DESIGN.md §3 C17")
 
